@@ -123,6 +123,9 @@ def main():
     finally:
         sh(["git", "-C", "/repo", "worktree", "remove", "--force", wt])
         clean_etcd_tmp()
+        for pid in props:  # the tagged run directories of this seed (hundreds of MB each)
+            shutil.rmtree(os.path.join(V, "run", "%s_%s" % (pid, sid)), ignore_errors=True)
+        shutil.rmtree("/tmp/coord/ev_%s" % sid, ignore_errors=True)
     dst = os.path.join(V, "seeded", sid)
     os.makedirs(dst, exist_ok=True)
     for f in os.listdir(src):
